@@ -1,11 +1,12 @@
-(* C16 - property theorems only; each is closed by a lemma of Lemmas.v / Framing.v / Refuted.v.
+(* C16 - property theorems only; each is closed by a lemma of Lemmas.v / Framing.v (no refutation is left: every
+   defect found for C16 has been repaired in /repo).
    `sched` ranges over every interleaving of callers and poll thread at their synchronisation points together with
    every virtual time of every step; `progs` over every set of caller programs (communicate / writeline / multicomm /
    pause with any device directive: delays, chunkings, garbage, silence, close), `rf` over every refusal script, `cb`
    over every set of registered callbacks; md = line mode with any end-of-line or byte mode. *)
 From Coq Require Import List Arith ZArith NArith Bool Lia.
 Import ListNotations.
-Require Import FV.Gen.C16 FV.C16.Model FV.C16.Run FV.C16.Framing FV.C16.Lemmas FV.C16.Refuted.
+Require Import FV.Gen.C16 FV.C16.Model FV.C16.Run FV.C16.Framing FV.C16.Lemmas.
 Open Scope Z_scope.
 
 (* obligations on the facts regenerated from /repo (Gen/C16.v): every modelled function has the statement structure
@@ -106,39 +107,50 @@ Proof. intros. split; [intros; eapply reconnect_rate; eauto | apply no_attempt_w
 (* connection state visible: closing and connecting update is_connected and the connection object together and
    announce the new value *)
 Theorem C16_state_visible : forall s,
-  (let s' := close_conn s in connected s' = false /\ conn s' = false /\ last (ann s') true = false) /\
+  (let s' := close_conn s in connected s' = false /\ conn s' = false /\ last (ann s') true = false /\ last_error s' = true) /\
   (let s' := connect_ok s in connected s' = true /\ conn s' = true /\ last (ann s') false = true /\
                              nconn s' = S (nconn s) /\ queue s' = [] /\ rxbuf s' = []).
 Proof. intros. split; [apply close_visible | apply connect_visible]. Qed.
 
-(* FULL STATEMENT (refuted below): after every successful reconnect every registered callback runs exactly once.
-   Proved with the exact guard of the finding: ... provided an error text has been stored before (_last_error) *)
-Theorem C16_callbacks_once_except_clean_disconnect : forall s, last_error s = true ->
-  cblog (connect_ok s) = cblog s ++ map fst (cbs s) /\
-  cbs (connect_ok s) = filter (fun kc => cb_keeps (snd kc)) (cbs s) /\
-  (NoDup (map fst (cbs s)) -> forall k, In k (map fst (cbs s)) -> count_occ Nat.eq_dec (map fst (cbs s)) k = 1%nat).
-Proof. exact callbacks_once. Qed.
+(* after every successful reconnect every registered reconnect callback runs exactly once (unconditional since
+   closeConnection stores an error text, /repo 18d6f98): in every reachable state, a step that establishes a connection
+   while the communicator is disconnected after an earlier connection calls the registered callbacks, each once, in
+   registration order, and keeps exactly those that returned True *)
+Theorem C16_callbacks_once : forall md timeout interval slice progs rf cb poller sched x,
+  let st := run md timeout interval slice (init progs rf cb poller) sched in
+  let st' := step md timeout interval slice st x in
+  (0 < nconn (sh st))%nat -> connected (sh st) = false -> nconn (sh st') <> nconn (sh st) ->
+  cblog (sh st') = cblog (sh st) ++ map fst (cbs (sh st)) /\
+  cbs (sh st') = filter (fun kc => cb_keeps (snd kc)) (cbs (sh st)) /\
+  connected (sh st') = true /\ nconn (sh st') = S (nconn (sh st)).
+Proof.
+  intros. apply (reconnect_runs_callbacks md timeout interval slice); try assumption.
+  apply ready_run. apply ready_init.
+Qed.
 
-Theorem C16_callbacks_skipped_iff_no_error_stored : forall s, last_error s = false ->
-  cblog (connect_ok s) = cblog s /\ cbs (connect_ok s) = cbs s.
-Proof. exact callbacks_skipped_without_error. Qed.
+(* an error text is stored whenever the communicator is disconnected after a connection existed *)
+Theorem C16_error_stored_while_disconnected : forall md timeout interval slice progs rf cb poller sched,
+  let s := sh (run md timeout interval slice (init progs rf cb poller) sched) in
+  (0 < nconn s)%nat -> connected s = false -> last_error s = true.
+Proof.
+  intros md timeout interval slice progs rf cb poller sched s G D.
+  destruct (ready_run md timeout interval slice sched _ (ready_init progs rf cb poller) G) as [C|L]; [|exact L].
+  fold s in C. congruence.
+Qed.
 
-(* refutations on the faithful model; the witnesses are real executions of the pinned code (corpus/C16) *)
-Theorem C16_refuted_callbacks_skipped : exists c : case,
-  check_case c = true /\ c_cbs c <> [] /\
-  let s := sh (fst (final c)) in nconn s = 2%nat /\ connected s = true /\ cblog s = [] /\ last_error s = false.
-Proof. exact C16_refuted_callbacks_skipped_witness. Qed.
-
-Theorem C16_refuted_polling_retrigger_dropped : exists c : case,
-  check_case c = true /\ c_poller c = true /\
-  let s := sh (fst (final c)) in
-  nconn s = 3%nat /\ cblog s = [0; 99; 0]%nat /\ map fst (cbs s) = [0]%nat.
-Proof. exact C16_refuted_trigger_dropped_witness. Qed.
-
-(* a callback returning None (the poll thread's trigger_all) is unregistered by its first call *)
-Theorem C16_none_callback_dropped : forall s k, last_error s = true -> In (k, CbNone) (cbs s) ->
-  ~ In (k, CbNone) (cbs (connect_ok s)).
-Proof. exact none_callback_dropped. Qed.
+(* polling resumes after every reconnect (trigger_all returns True, /repo f9007fb): once the poll thread has started, its
+   trigger callback stays registered in every reachable state, hence (C16_callbacks_once) it is called at every reconnect *)
+Theorem C16_polling_resumes : forall md timeout interval slice progs rf cb poller sched,
+  let st := run md timeout interval slice (init progs rf cb poller) sched in
+  poll st <> QNone -> poll st <> QStart ->
+  In (TRIGGER, CbTrue) (cbs (sh st)) /\ In TRIGGER (map fst (cbs (sh st))).
+Proof.
+  intros md timeout interval slice progs rf cb poller sched st N1 N2.
+  pose proof (trigger_inv_run md timeout interval slice sched _ (trigger_inv_init progs rf cb poller)) as T.
+  fold st in T. unfold trigger_inv in T.
+  assert (I : In (TRIGGER, CbTrue) (cbs (sh st))) by (destruct (poll st); try congruence; exact T).
+  split; [exact I|]. apply in_map_iff. exists (TRIGGER, CbTrue). split; [reflexivity|exact I].
+Qed.
 
 Print Assumptions C16_source_facts.
 Print Assumptions C16_mutual_exclusion.
@@ -151,8 +163,6 @@ Print Assumptions C16_timeout_bound.
 Print Assumptions C16_delays_honoured.
 Print Assumptions C16_reconnect_rate.
 Print Assumptions C16_state_visible.
-Print Assumptions C16_callbacks_once_except_clean_disconnect.
-Print Assumptions C16_callbacks_skipped_iff_no_error_stored.
-Print Assumptions C16_refuted_callbacks_skipped.
-Print Assumptions C16_refuted_polling_retrigger_dropped.
-Print Assumptions C16_none_callback_dropped.
+Print Assumptions C16_callbacks_once.
+Print Assumptions C16_error_stored_while_disconnected.
+Print Assumptions C16_polling_resumes.
